@@ -140,13 +140,42 @@ fn gen_supplied(rng: &mut Rng, n: usize) -> Vec<Supplied> {
             l.fee %= 10001;
         }
     }
-    // grouped sums at the 2^32 boundary (the reference decides provability)
-    if k >= 2 && rng.chance(1, 5) && !leaves[0].is_dummy() && !leaves[1].is_dummy() {
-        let acct = leaves[0].exit1;
-        leaves[1].exit1 = acct;
-        let (a, b) = *rng.pick(&[(1u64 << 31, 1u64 << 31), (1 << 31, (1 << 31) - 1), (u32::MAX as u64, 1), (u32::MAX as u64, 0)]);
-        leaves[0].out1 = a;
-        leaves[1].out1 = b;
+    // grouped sums at the 2^32 boundary (the reference decides provability): any 2..3 output
+    // positions of the real leaves -- including both outputs of one leaf -- pay one account and
+    // their amounts sum to 2^32-1, 2^32 or 2^32+1
+    if rng.chance(1, 3) {
+        let mut positions: Vec<(usize, usize)> = vec![];
+        for (i, l) in leaves.iter().enumerate() {
+            if !l.is_dummy() {
+                positions.push((i, 0));
+                positions.push((i, 1));
+            }
+        }
+        if positions.len() >= 2 {
+            // bias towards "both outputs of one leaf" (a single real leaf can overflow on its own)
+            let chosen: Vec<(usize, usize)> = if rng.chance(1, 2) {
+                let i = positions[rng.usize(positions.len())].0;
+                vec![(i, 0), (i, 1)]
+            } else {
+                rng.shuffle(&mut positions);
+                positions.truncate(2 + rng.usize(2).min(positions.len() - 2));
+                positions.clone()
+            };
+            let acct = if rng.chance(1, 4) { [0u64; 4] } else { leaves[chosen[0].0].exit1 };
+            let target: u64 = *rng.pick(&[(1u64 << 32) - 1, 1 << 32, (1 << 32) + 1]);
+            let mut rest = target;
+            for (k, (i, o)) in chosen.iter().enumerate() {
+                let amt = if k + 1 == chosen.len() { rest.min(u32::MAX as u64) } else { let a = (rest / 2).min(u32::MAX as u64); a };
+                rest -= amt;
+                if *o == 0 {
+                    leaves[*i].exit1 = acct;
+                    leaves[*i].out1 = amt;
+                } else {
+                    leaves[*i].exit2 = acct;
+                    leaves[*i].out2 = amt;
+                }
+            }
+        }
     }
     leaves.into_iter().map(|stmt| Supplied { stmt, tampered: rng.chance(1, 14) }).collect()
 }
